@@ -256,11 +256,13 @@ def ctors(ctx, w, pm):
       want = corr.get(params[i], '?')
       if want is None:
         continue
+      a = U.expand_locals(w.node, a, at=c)      # a field read once into a local is still that field
       if not (isinstance(a, ast.Attribute) and a.attr == want):
         bad.append('parameter %s receives %s (expected the event\'s %s)' % (params[i], norm_text(a), want))
     for k in c.keywords:
       want = corr.get(k.arg, '?')
-      if want is not None and not (isinstance(k.value, ast.Attribute) and k.value.attr == want):
+      kv = U.expand_locals(w.node, k.value, at=c)
+      if want is not None and not (isinstance(kv, ast.Attribute) and kv.attr == want):
         bad.append('parameter %s receives %s (expected the event\'s %s)' % (k.arg, norm_text(k.value), want))
     if len(c.args) + len(c.keywords) != len(params):
       bad.append('%d arguments for parameters %s' % (len(c.args) + len(c.keywords), params))
